@@ -1,7 +1,7 @@
 (* Extraction of the executable models for the correspondence runner.
    ExtrOcamlBasic only: bool, option, unit, prod, list, sumbool/sumor map to OCaml's own types;
    nat, positive, N, Z stay inductive so 2^64 is exact.  No Extract Constant of ours. *)
-From CsProto Require Import Prelude Varint ZigZag Codec RefWire WireStmts Hex Dump Lazy Pool Schema GenMarshal RefMsg GenUnmarshal.
+From CsProto Require Import Prelude Varint ZigZag Codec RefWire WireStmts Hex Dump Lazy Pool Schema GenMarshal RefMsg GenUnmarshal GenLegal GenNames.
 Require Import ExtrOcamlBasic.
 Extraction Language OCaml.
 Extraction "model.ml"
@@ -9,4 +9,4 @@ Extraction "model.ml"
   estep erun ebytes esize enc_nested dstep drun in_dom
   parse protodump
   lazy_decode_dec lazy_decode_fn lazy_decode_nested observe pstep prun pinit
-  vdepth gen_size gen_ops gen_marshal gen_marshal_to ref_decode normalize gen_unmarshal.
+  vdepth gen_size gen_ops gen_marshal gen_marshal_to ref_decode normalize gen_unmarshal legal_msg no_dup_msgs out_names apply_opt default_opts.
